@@ -286,6 +286,8 @@ impl Analyzer {
         // Must precede `drop_tokens`: it matches reference tokens against
         // their token scope.
         symbol_table::drop(path, prj);
+        // Pending reference candidates of the old text go with its tokens.
+        reference_table::drop(path, prj);
         scope::drop_tokens(path, prj);
         text_table::drop(path);
         attribute_table::drop(path);
